@@ -364,6 +364,15 @@ where
             return Err(ZiporaError::invalid_data("File does not exist"));
         }
 
+        // The header must be present in the file itself: the mapping is at least 64KB and
+        // zero-filled, so a shorter file would otherwise be read as a header padded with zeros
+        let file_len = std::fs::metadata(&file_path)
+            .map_err(|e| ZiporaError::io_error(&format!("Failed to get file size: {}", e)))?
+            .len();
+        if file_len < HEADER_SIZE as u64 {
+            return Err(ZiporaError::invalid_data("File is too small to hold a vector header"));
+        }
+
         // Create memory mapping
         let mmap = Self::create_mmap(&file_path, &config)?;
         
@@ -380,6 +389,19 @@ where
         // Initialize pointers and validate
         vec.update_pointers()?;
         vec.validate_header()?;
+
+        // The header vouches for `capacity` elements: all of them must be backed by the file,
+        // otherwise element access would read past the end of the mapping (truncated file, or a
+        // capacity that was persisted before the file was extended)
+        let required = (vec.capacity() as u64)
+            .checked_mul(std::mem::size_of::<T>() as u64)
+            .and_then(|data| data.checked_add(HEADER_SIZE as u64))
+            .ok_or_else(|| ZiporaError::invalid_data("Capacity in header overflows the file size"))?;
+        if file_len < required {
+            return Err(ZiporaError::invalid_data(
+                "File is shorter than the capacity recorded in its header",
+            ));
+        }
 
         Ok(vec)
     }
